@@ -36,6 +36,13 @@ func debugDump(w *World, what string, args []string) {
 			}
 		}
 		fmt.Println("proved", ok, "unproven", bad)
+	case "narrowarith":
+		r := NewReport("C11", "quick", "/tmp/dbg")
+		r.W = w
+		RunNarrowBound(w, r, w.LibFuncs(), newBoundsRun(w))
+		for _, o := range r.Obls {
+			fmt.Println(o.Status, o.Pos, o.Key, o.Detail)
+		}
 	case "flagreduce":
 		r := NewReport("C10", "quick", "/tmp/dbg")
 		r.W = w
